@@ -11,6 +11,7 @@ require (
 )
 
 require (
+	github.com/amenzhinsky/go-memexec v0.6.0 // indirect
 	github.com/fsnotify/fsnotify v1.5.1 // indirect
 	github.com/lucasb-eyer/go-colorful v1.2.0 // indirect
 	github.com/pelletier/go-toml/v2 v2.0.3 // indirect
